@@ -93,3 +93,43 @@ func constBuilt(v ssa.Value) bool {
 	}
 	return f(v)
 }
+
+// adapterWriteString returns the WriteString method of the adapter that gives a plain io.Writer the WriteString
+// interface: (*asStringWriter).WriteString by name, else the only WriteString(string) (int, error) method declared in
+// the package on a struct type that holds an io.Writer.
+func adapterWriteString(c *Ctx) *ssa.Function {
+	if fn := c.P.Func(load.ModPath, "(*asStringWriter).WriteString"); fn != nil {
+		return fn
+	}
+	var found *ssa.Function
+	for _, fn := range moduleFuncs(c.P) {
+		if fn.Name() != "WriteString" || fn.Signature.Recv() == nil || fn.Pkg == nil || fn.Pkg.Pkg.Path() != load.ModPath {
+			continue
+		}
+		if fn.Signature.Params().Len() != 1 || fn.Signature.Results().Len() != 2 {
+			continue
+		}
+		rt := fn.Signature.Recv().Type()
+		if p, ok := rt.(*types.Pointer); ok {
+			rt = p.Elem()
+		}
+		st, ok := rt.Underlying().(*types.Struct)
+		if !ok {
+			continue
+		}
+		holds := false
+		for i := 0; i < st.NumFields(); i++ {
+			if st.Field(i).Type().String() == "io.Writer" {
+				holds = true
+			}
+		}
+		if !holds {
+			continue
+		}
+		if found != nil && found != fn {
+			return nil
+		}
+		found = fn
+	}
+	return found
+}
